@@ -8,6 +8,7 @@ import (
 	"path/filepath"
 	"sort"
 	"strings"
+	"syscall"
 
 	"google.golang.org/protobuf/proto"
 
@@ -24,6 +25,10 @@ type Spec struct {
 	Seed  int64  `json:"seed"`
 	Mode  string `json:"mode"`
 	Dir   string `json:"dir"` // scratch directory of this history
+	// Variants.
+	DataDir string `json:"data_dir"`           // MUTAGEN_DATA_DIRECTORY of the child (tmpfs in the cross-device variant)
+	Shm     bool   `json:"shm,omitempty"`      // data directory (staging) on another device than the roots
+	BetaCap uint64 `json:"beta_cap,omitempty"` // MaximumEntryCount configured on the beta endpoint only
 }
 
 // Viol is a violation found by a child, reported by the parent through vk.
@@ -320,9 +325,20 @@ func (h *history) run() error {
 		return err
 	}
 	h.seeding = shape
-	h.logf("history %s #%d mode=%s seed=%d seeding=%s", prop, h.spec.Index, mode, h.spec.Seed, shape)
+	h.logf("history %s #%d mode=%s seed=%d seeding=%s shm=%v betaCap=%d", prop, h.spec.Index, mode, h.spec.Seed, shape, h.spec.Shm, h.spec.BetaCap)
+	h.seeding = fmt.Sprintf("%s shm=%v betaCap=%d", shape, h.spec.Shm, h.spec.BetaCap)
+	if h.spec.Shm {
+		// the variant is only what it claims if staging really is on another device
+		os.MkdirAll(h.spec.DataDir, 0o700)
+		var a, b syscall.Stat_t
+		if syscall.Stat(h.spec.DataDir, &a) == nil && syscall.Stat(h.roots.alpha, &b) == nil && a.Dev != b.Dev {
+			h.count("l3_histories_staging_on_other_device", 1)
+		} else {
+			h.count("l3_histories_shm_same_device", 1)
+		}
+	}
 
-	sess, err := openSession(h.roots.alpha, h.roots.beta, mode, h.logw)
+	sess, err := openSession(h.roots.alpha, h.roots.beta, mode, h.spec.BetaCap, h.logw)
 	if err != nil {
 		if strings.Contains(err.Error(), errWait.Error()) {
 			h.res.Inconclusive = append(h.res.Inconclusive, "l3-session-not-ready")
@@ -347,13 +363,34 @@ func (h *history) run() error {
 	if rng.Intn(10) == 0 {
 		rootAttackAt = nRounds
 	}
+	// Scripted rounds. (a) agreement-only cycle, then pause/resume, then a
+	// one-sided delete of what was agreed: always in C04, sometimes elsewhere.
+	agreeAt := -1
+	if prop == "C04" || rng.Intn(3) == 0 {
+		agreeAt = 1 + rng.Intn(nRounds-1)
+		if agreeAt+1 >= nRounds {
+			agreeAt = nRounds - 2
+		}
+	}
+	var agreed []string
+	// (b) entry-count limit on beta: alpha creates more directories than beta accepts
+	massAt := -1
+	if h.spec.BetaCap > 0 {
+		if nRounds > 8 {
+			nRounds = 8
+		}
+		massAt = 1 + rng.Intn(2)
+		if agreeAt == massAt || agreeAt+1 == massAt {
+			agreeAt = -1
+		}
+	}
 	ended := ""
 	for round := 0; round <= nRounds && ended == ""; round++ {
 		rec := roundRecord{Round: round}
 		attacked := false
 		opset := map[string]bool{}
 		if round > 0 {
-			if rng.Intn(7) == 0 {
+			if rng.Intn(7) == 0 || (agreeAt >= 0 && round == agreeAt+1) {
 				h.logf("round %d: pause/resume", round)
 				if err := sess.restart(); err != nil {
 					if err == errWait {
@@ -368,7 +405,40 @@ func (h *history) run() error {
 			}
 			h.logf("round %d: edits", round)
 			ed.rootAttack = round == rootAttackAt
-			applied, err := ed.round(1 + rng.Intn(15))
+			ed.script, ed.prefix = nil, nil
+			nEdits := 1 + rng.Intn(15)
+			if h.spec.BetaCap > 0 {
+				nEdits = 1 + rng.Intn(6)
+			}
+			switch {
+			case round == agreeAt:
+				ed.script = func() ([]Applied, error) {
+					var all []Applied
+					for i, k := 0, 1+rng.Intn(3); i < k; i++ {
+						a, err := ed.bothIdentical(0)
+						if err != nil {
+							return all, err
+						}
+						for _, x := range a {
+							agreed = append(agreed, x.Path)
+						}
+						all = append(all, a...)
+					}
+					return all, nil
+				}
+			case agreeAt >= 0 && round == agreeAt+1 && len(agreed) > 0:
+				ed.prefix = func() ([]Applied, error) {
+					p := agreed[rng.Intn(len(agreed))]
+					side := []string{"alpha", "beta"}[rng.Intn(2)]
+					if err := os.Remove(fullPath(h.roots.of(side), p)); err != nil {
+						return nil, nil
+					}
+					return []Applied{{Side: side, Op: "delete-agreed", Path: p}}, nil
+				}
+			case round == massAt:
+				ed.prefix = func() ([]Applied, error) { return ed.massCreate(int(h.spec.BetaCap) + 100) }
+			}
+			applied, err := ed.round(nEdits)
 			if err != nil {
 				return fmt.Errorf("edits: %w", err)
 			}
@@ -380,6 +450,12 @@ func (h *history) run() error {
 				}
 			}
 			h.count("l3_edits", int64(len(applied)))
+			for _, a := range applied {
+				switch a.Op {
+				case "edit-content-and-x", "both-create-identical", "both-modify-identical", "both-delete", "delete-agreed", "mass-create":
+					h.count("l3_edits:"+a.Op, 1)
+				}
+			}
 		} else {
 			h.logf("round 0: initial flush over the seeded roots")
 			opset["seed:"+shape] = true
@@ -421,9 +497,18 @@ func (h *history) run() error {
 		h.count("l3_conflicts_listed", int64(len(st.Conflicts)))
 		h.count("l3_scan_problems_listed", int64(len(scanProblems)))
 		h.count("l3_transition_problems_listed", int64(len(transitionProblems)))
+		for _, tp := range transitionProblems {
+			if strings.Contains(tp, "entry count") {
+				h.count("l3_beta_refused_over_limit", 1)
+				break
+			}
+		}
 		h.logf("round %d: status=%v flushErr=%v lastError=%q conflicts=%q scanProblems=%d transitionProblems=%q", round, st.Status, flushErr, st.LastError, conflictRoots(st), len(scanProblems), transitionProblems)
 		if flushErr != nil {
 			switch {
+			case flushErr == errRescanLoop:
+				h.count("l3_scan_retry_loops", 1)
+				ended = "scan-retry-loop"
 			case halted(st):
 				h.count("l3_halted:"+st.Status.String(), 1)
 				// C11 (not a verdict here): both roots across the halting flush
@@ -476,6 +561,21 @@ func (h *history) run() error {
 			}
 			if mode == "two-way-resolved" {
 				h.lostContent("alpha", v.preA, v.postA, "l3-alpha-modification-lost", v)
+			}
+		case "C04":
+			// the cycle that just ended applied everything it planned: the state it
+			// recorded on disk must already be a fixpoint for the roots as they are
+			if flushErr == nil && len(transitionProblems) == 0 && st.Status == synchronization.Status_Watching {
+				arch, err := sess.archive()
+				if err != nil {
+					return fmt.Errorf("reading archive: %w", err)
+				}
+				if _, err := h.fixpoint("after-cycle", arch, "none", nil); err != nil {
+					return err
+				}
+				if round == agreeAt {
+					h.count("l3_agreement_only_cycles_checked", 1)
+				}
 			}
 		case "C03":
 			h.protectedSurvive("alpha", v.preA, v.postA, attacked)
@@ -631,39 +731,12 @@ func (h *history) quiescent() error {
 	}
 	h.count("l3_archive_entries", int64(arch2.Content.Count()))
 
-	// (3) the recorded state is a fixpoint for the roots as they are: the real
-	// reconciliation over (archive from disk, real scans of both roots) plans
-	// nothing for either endpoint and nothing for the ancestor.
-	sc := fsx.DefaultScanConfig()
-	sc.Patterns = ignorePatterns
-	sa, errA := fsx.Cold(h.roots.alpha, sc)
-	sb, errB := fsx.Cold(h.roots.beta, sc)
-	if errA != nil || errB != nil {
-		return fmt.Errorf("cold scans: %v / %v", errA, errB)
+	// (3) the recorded state is a fixpoint for the roots as they are
+	conflicts, err := h.fixpoint("quiescent", arch2, tpSig, h.tpList)
+	if err != nil {
+		return err
 	}
-	ancCh, aCh, bCh, conflicts := core.Reconcile(arch2.Content, sa.Snapshot.Content, sb.Snapshot.Content, modeNames[mode])
-	if len(ancCh)+len(aCh)+len(bCh) > 0 {
-		var d []string
-		for _, c := range ancCh {
-			d = append(d, "ancestor:"+quote(c.Path))
-		}
-		for _, c := range aCh {
-			d = append(d, "alpha:"+quote(c.Path))
-		}
-		for _, c := range bCh {
-			d = append(d, "beta:"+quote(c.Path))
-		}
-		sort.Strings(d)
-		which := "endpoint"
-		if len(aCh)+len(bCh) == 0 {
-			which = "ancestor-only"
-		}
-		h.violation("l3-recorded-state-not-fixpoint", map[string]string{"plans": which, "transition_problems": tpSig},
-			fmt.Sprintf("%s: after two quiescent flushes with every planned change applied, reconciling the archive on disk with fresh scans of both roots still plans %d ancestor, %d alpha and %d beta changes: %q", mode, len(ancCh), len(aCh), len(bCh), d),
-			map[string]any{"planned": d, "archive": describeEntry(arch2.Content), "transition_problems": h.tpList})
-	}
-	h.count("l3_fixpoint_reconciliations", 1)
-	if len(conflicts) > 0 {
+	if conflicts > 0 {
 		sigParts = append(sigParts, "conflicts")
 	}
 
@@ -688,6 +761,48 @@ func (h *history) quiescent() error {
 	sigParts = append(sigParts, fmt.Sprintf("objects-%d", bucket(len(a1)+len(b1))))
 	h.res.Distinct = append(h.res.Distinct, "l3|C04|"+strings.Join(sigParts, "|"))
 	return nil
+}
+
+// fixpoint: the real reconciliation over (archive read from disk, real cold
+// scans of both roots as they are now) must plan nothing for either endpoint
+// and nothing for the ancestor. Returns the number of conflicts it found.
+func (h *history) fixpoint(when string, arch *core.Archive, tpSig string, tpList []string) (int, error) {
+	mode := h.spec.Mode
+	sc := fsx.DefaultScanConfig()
+	sc.Patterns = ignorePatterns
+	sa, errA := fsx.Cold(h.roots.alpha, sc)
+	sb, errB := fsx.Cold(h.roots.beta, sc)
+	if errA != nil || errB != nil {
+		return 0, fmt.Errorf("cold scans: %v / %v", errA, errB)
+	}
+	ancCh, aCh, bCh, conflicts := core.Reconcile(arch.Content, sa.Snapshot.Content, sb.Snapshot.Content, modeNames[mode])
+	if len(ancCh)+len(aCh)+len(bCh) > 0 {
+		var d []string
+		for _, c := range ancCh {
+			d = append(d, "ancestor:"+quote(c.Path))
+		}
+		for _, c := range aCh {
+			d = append(d, "alpha:"+quote(c.Path))
+		}
+		for _, c := range bCh {
+			d = append(d, "beta:"+quote(c.Path))
+		}
+		sort.Strings(d)
+		which := "endpoint"
+		if len(aCh)+len(bCh) == 0 {
+			which = "ancestor-only"
+		}
+		what := "after two quiescent flushes"
+		if when == "after-cycle" {
+			what = "right after a cycle that reported no transition problem"
+		}
+		h.violation("l3-recorded-state-not-fixpoint", map[string]string{"plans": which, "transition_problems": tpSig, "when": when},
+			fmt.Sprintf("%s: %s, reconciling the archive on disk with fresh scans of both roots still plans %d ancestor, %d alpha and %d beta changes: %q", mode, what, len(ancCh), len(aCh), len(bCh), d),
+			map[string]any{"planned": d, "archive": describeEntry(arch.Content), "transition_problems": tpList})
+	}
+	h.count("l3_fixpoint_reconciliations", 1)
+	h.count("l3_fixpoint_reconciliations:"+when, 1)
+	return len(conflicts), nil
 }
 
 func bucket(n int) int {
